@@ -231,7 +231,15 @@ impl Maps {
         }
     }
     pub fn fid(&self, h: &packed::Byte32) -> i64 {
-        self.fhash.get(h).map(|i| *i as i64 + 1).unwrap_or(-1)
+        if let Some(i) = self.fhash.get(h) {
+            return *i as i64 + 1;
+        }
+        // invented check points (drivers for C07): [0xFA, 0xCE, group, index]
+        let b = h.as_slice();
+        if b[0] == 0xFA && b[1] == 0xCE {
+            return -(1000 + (b[2] as i64) * 100 + b[3] as i64);
+        }
+        -1
     }
 }
 
@@ -375,7 +383,8 @@ pub fn filter_state(client: &Client, chain: &SimChain, names: &[PeerIndex]) -> V
     };
     json!({
         "scripts": scripts, "minF": min_f, "mdb": mdb, "mmem": mmem,
-        "cpFinal": cp_final, "maxCp": max_cp,
+        // final = up to MAX_CHECK_POINT_INDEX; values stored beyond it (a crash between the two writes) are not
+        "cpFinal": cp_final.iter().take((max_cp + 1).max(0) as usize).cloned().collect::<Vec<_>>(), "maxCp": max_cp, "cpStored": cp_final.len(),
         "cells": cells, "hist": hist, "txs": txs, "hdrs": hdrs, "nums": nums,
         "cached": [dump.cached_block_filter_hashes.0, dump.cached_block_filter_hashes.1.iter().map(|h| maps.fid(h)).collect::<Vec<_>>()],
         "pf": Value::Object(pf),
